@@ -609,30 +609,42 @@ func run(r *mon.Run) {
 		if i%3 == 0 {
 			fifo := filepath.Join(scratch, fmt.Sprintf("fifo-%d-%d", r.Shard, i))
 			if err := syscall.Mkfifo(fifo, 0o600); err == nil {
-				got := make(chan []byte, 1)
+				type fifoRead struct {
+					b   []byte
+					err error
+				}
+				got := make(chan fifoRead, 1)
 				go func() {
 					f, err := os.Open(fifo)
 					if err != nil {
-						got <- nil
+						got <- fifoRead{nil, err}
 						return
 					}
-					b, _ := io.ReadAll(f)
+					b, err := io.ReadAll(f)
 					f.Close()
-					got <- b
+					got <- fifoRead{b, err}
 				}()
 				o3, err3 := exec.Command(cli, "integrity-block", "-i", in, "-o", fifo, "-privateKey", keyPath).CombinedOutput()
-				var piped []byte
+				// The tool has exited. If it ever opened the FIFO, the reader's open has returned as well (each open waits
+				// for the other side) and everything written sits in the pipe: the reader finishes on its own. Only a tool
+				// that never opened its -o leaves the reader blocked; a generous wall-clock wait decides nothing by itself
+				// here - whatever comes out of that path is "inconclusive", never a verdict.
+				var fr fifoRead
+				timedOut := false
 				select {
-				case piped = <-got:
-				case <-time.After(20 * time.Second):
-					// nobody opened the FIFO for writing: unblock the reader
+				case fr = <-got:
+				case <-time.After(5 * time.Minute):
+					timedOut = true
 					if wf, e := os.OpenFile(fifo, os.O_WRONLY|syscall.O_NONBLOCK, 0); e == nil {
 						wf.Close()
 					}
-					piped = <-got
+					fr = <-got
 				}
+				piped := fr.b
 				os.Remove(fifo)
-				if err3 != nil {
+				if timedOut || fr.err != nil {
+					r.HarnessFail("FIFO reader did not complete (timed out: %v, error: %v) after sign-bundle exited (%v): inconclusive", timedOut, fr.err, err3)
+				} else if err3 != nil {
 					outcome = "cli:FIFO-FAILED"
 					r.Violation(key+":fifo-exit", fmt.Sprintf("sign-bundle integrity-block -o <fifo> failed: %v: %s", err3, tailStr(string(o3), 200)), nil)
 				} else {
